@@ -353,7 +353,12 @@ class IkeSa(object):
 
     def process_message(self, data):
         # parse the whole message (including encrypted data)
-        message = Message.parse(data, header_only=False, crypto=self.peer_crypto)
+        try:
+            message = Message.parse(data, header_only=False, crypto=self.peer_crypto)
+        except IkeSaError as ex:
+            # malformed, unprotected or not authentic: it must not affect the IKE_SA in any way
+            self.log_error(f'Could not parse received message: {ex}. Ignoring')
+            return None
         self.log_message(message, data, send=False)
 
         # check the role the sender claims to have corresponds with what we think about ourselves
